@@ -320,7 +320,7 @@ def run(ctx):
                 labels.append(x)
         cases.append(r)
         injected.append(labels)
-    impl = ctx.run_impl("impl_validator.py", {"cases": cases}, timeout=3000)
+    impl = ctx.run_impl_cases("impl_validator.py", cases, jobs=8, timeout=3000)
     failures, terms, idx = [], [], []
     groups = ["arrays", "tags", "mtags", "others"]
     for k, (r, labels, res) in enumerate(zip(cases, injected, impl)):
